@@ -8,7 +8,9 @@ CONSTANTS
   UseUntil = FALSE
   PreStarted = FALSE
   FixedStopOrder = 0
+  ResetInRun = FALSE
   MaxTok = 7
+  PreBoot = FALSE
 SPECIFICATION GenSpec
 INVARIANT Emit
 CHECK_DEADLOCK FALSE
